@@ -6,6 +6,12 @@ THEOREMS = [
     "BSVerif.Props.C13.chunk_size_obligation",
     "BSVerif.Props.C13.detect_bom",
     "BSVerif.Props.C13.ambiguous",
+    "BSVerif.Props.C13.analyse_no_zero",
+    "BSVerif.Props.C13.detect_utf8_nobom",
+    "BSVerif.Props.C13.detect_utf16le_nobom",
+    "BSVerif.Props.C13.detect_utf16be_nobom",
+    "BSVerif.Props.C13.detect_utf32le_nobom",
+    "BSVerif.Props.C13.detect_utf32be_nobom",
     "BSVerif.Props.C13.readChunk_progress",
     "BSVerif.Props.C13.readAll_terminates",
 ]
